@@ -55,6 +55,16 @@ def _fp_sites(obl):
         rc, out = _sh(["goto-cc"] + objs + ["-o", linked])
         if rc != 0:
             raise RuntimeError("C07 fp-site scan: link failed:\n%s" % out[-2000:])
+        if obl.replace_calls:
+            # same order as lib/vp.py build(): --replace-calls before the restriction
+            rep = os.path.join(d, "rep.gb")
+            cmd = ["goto-instrument"]
+            for rcall in obl.replace_calls:
+                cmd += ["--replace-calls", rcall]
+            rc, out = _sh(cmd + [linked, rep])
+            if rc != 0 or not os.path.exists(rep):
+                raise RuntimeError("C07 fp-site scan: --replace-calls failed:\n%s" % out[-2000:])
+            linked = rep
         lab = os.path.join(d, "lab.gb")
         # any one restriction makes goto-instrument label every site
         rc, out = _sh(["goto-instrument", "--restrict-function-pointer",
@@ -86,7 +96,7 @@ class AutoObl(Obl):
         if self._fp_val is not None:
             return self._fp_val
         key = (self.harness, tuple(self.real), tuple(self.kit), self.fp_key,
-               tuple(sorted(self.fp_rules.items())))
+               tuple(self.replace_calls), tuple(sorted(self.fp_rules.items())))
         with _fp_lock:
             ent = _fp_cache.setdefault(key, {"lock": threading.Lock(), "val": None})
         with ent["lock"]:
@@ -113,27 +123,53 @@ OBLIGATIONS = []
 KIT = ["vp_nondet.c", "vp_mem.c", "vp_alloc.c", "vp_arriter.c"]
 # growing ldb_buffer_t storage lives in static slabs (kit/vp_alloc_c07.c)
 KIT_SLAB = ["vp_nondet.c", "vp_mem.c", "vp_alloc_c07.c", "vp_arriter.c"]
+UTIL_REAL = ["table/iterator.c", "util/comparator.c", "util/buffer.c", "util/slice.c", "util/strutil.c"]
+
+# Operation families.  A = an absolute positioning op (first | last | seek to a
+# symbolic target), R = a relative op (next | prev); each letter is one step
+# whose operation is chosen symbolically inside the set.  "ARR" therefore
+# covers every direction change after every way of positioning, "ARA"/"AA" a
+# re-positioning from every reachable state.  "*" = any of the five ops.
+A_SET, R_SET, ANY = 7, 24, 31
+
+
+def fam_defs(fam):
+    d = {"VP_K": len(fam)}
+    for i, ch in enumerate(fam):
+        d["VP_OS%d" % i] = {"A": A_SET, "R": R_SET, "*": ANY}[ch]
+    return d
+
+
+def fam_text(fam):
+    return "%d steps %s (A = first|last|seek(symbolic target), R = next|prev, * = any; chosen symbolically per step)" % (
+        len(fam), "-".join(fam))
+
+
+# Multi-step obligations run without CBMC's implicit pointer/bounds checks
+# (they triple the formula); the scan obligations of every layer, the seek
+# helpers and C18 keep them.  The explicit overflow/shift checks stay on.
+NOSTD = ["--no-standard-checks"]
 
 
 def add(name, harness, **kw):
     kw.setdefault("kit", KIT)
-    kw.setdefault("timeout", 400)
+    kw.setdefault("timeout", 600)
     kw.setdefault("fp_key", kw.get("defs", {}).get("VP_MODE"))
+    if any(o.name == name for o in OBLIGATIONS):
+        return  # already registered (the quick tier lists come first)
     OBLIGATIONS.append(AutoObl(name, harness, **kw))
 
 
 # ------------------------------------------------------------------ b. seek helpers
 for n in range(0, 5):
-    add("b.seek-helpers-N%d" % n, "C07/seekhelpers.c",
-        real=["table/iterator.c", "util/comparator.c", "util/buffer.c", "util/slice.c", "util/strutil.c"],
-        defs={"VP_N": n, "VP_KL": 2}, unwind=8,
+    add("b.seek-helpers-N%d" % n, "C07/seekhelpers.c", real=UTIL_REAL,
+        defs={"VP_N": n, "VP_KL": 2}, unwind=8, timeout=300,
         functions=["ldb_iter_seek_ge", "ldb_iter_seek_gt", "ldb_iter_seek_le", "ldb_iter_seek_lt", "ldb_iter_compare"],
         desc="ldb_iter_seek_ge/gt/le/lt over a sorted child land exactly on min>=t / min>t / max<=t / max<t of the sorted map (not valid when none: before-first, after-last, empty), from any prior position; ldb_iter_compare sign == reference order",
         bounds="%d keys of 0..2 symbolic bytes, symbolic target of 0..2 bytes, symbolic prior cursor position, symbolic choice of helper" % n)
 
 # ------------------------------------------------------------------ e. db_iter.c
-DBITER_REAL = ["table/iterator.c", "util/comparator.c", "util/buffer.c", "util/slice.c",
-               "util/strutil.c", "dbformat.c"]
+DBITER_REAL = UTIL_REAL + ["dbformat.c"]
 DBITER_FUNCS = ["ldb_dbiter_first", "ldb_dbiter_last", "ldb_dbiter_seek", "ldb_dbiter_next", "ldb_dbiter_prev",
                 "ldb_dbiter_valid", "ldb_dbiter_key", "ldb_dbiter_value", "ldb_dbiter_status",
                 "find_next_user_entry", "find_prev_user_entry", "parse_key", "ldb_pkey_import", "ldb_pkey_export"]
@@ -141,20 +177,24 @@ DBITER_FUNCS = ["ldb_dbiter_first", "ldb_dbiter_last", "ldb_dbiter_seek", "ldb_d
 
 def dbiter_loops(n):
     # entry loops of db_iter.c visit each child entry at most once; the read
-    # sampling loop runs once (the period is ~1 MiB, keys are <= 10 bytes)
+    # sampling loop runs once (the period is 1 MiB, keys are <= 10 bytes)
     return {"find_next_user_entry.0": n + 1, "find_prev_user_entry.0": n + 1,
             "ldb_dbiter_prev.0": n + 1, "parse_key.0": 2,
             # user keys and values are 1 byte: every memcmp/memcpy in the unit is <= 1 byte
             "memcmp.0": 2, "memcpy.0": 2}
 
 
-for (n, k, tier) in ((1, 2, "quick"), (2, 3, "quick"), (3, 2, "quick"), (3, 3, "quick"), (4, 2, "quick"),
-                     (4, 3, "thorough"), (5, 2, "thorough"), (3, 4, "thorough"), (33, 3, "quick")):
-    add("e.dbiter-ops-N%d-K%d" % (n, k), "C07/dbiter.c", real=DBITER_REAL, include_real=["db_iter.c"],
-        defs={"VP_MODE": 0, "VP_N": n % 10, "VP_K": k, "VP_SEQBITS": 8 if n > 10 else 56}, kit=KIT_SLAB, unwind=11, unwindset=dbiter_loops(n % 10),
-        object_bits=10, tier=tier, functions=DBITER_FUNCS,
-        desc="db_iter.c over one sorted internal child: after each of K symbolic ops (first/last/seek(sym)/next/prev) valid/key/value == sorted-map cursor over the 'newest entry with seq<=S per user key, visible iff value' fold; never yields seq>S or a deletion; status()==child status; read sampling does not disturb",
-        bounds="%d internal entries (1-byte symbolic user keys, symbolic 56-bit seq, symbolic type), symbolic snapshot S, K=%d symbolic ops" % (n, k))
+for (n, fam, tier) in ((1, "**", "quick"), (2, "***", "quick"), (3, "ARR", "quick"), (3, "ARA", "quick"), (3, "AA", "quick"),
+                       (4, "ARR", "quick"),
+                       (3, "***", "thorough"), (4, "ARA", "thorough"), (4, "***", "thorough"), (5, "ARR", "thorough"),
+                       (3, "ARRR", "thorough")):
+    d = {"VP_MODE": 0, "VP_N": n}
+    d.update(fam_defs(fam))
+    add("e.dbiter-ops-N%d-%s" % (n, fam.replace("*", "x")), "C07/dbiter.c", real=DBITER_REAL, include_real=["db_iter.c"],
+        defs=d, kit=KIT_SLAB, unwind=11, unwindset=dbiter_loops(n), object_bits=10, tier=tier, flags=NOSTD,
+        functions=DBITER_FUNCS,
+        desc="db_iter.c over one sorted internal child: after every step valid/key/value == sorted-map cursor over the 'newest entry with seq<=S per user key, visible iff value' fold; never yields seq>S or a deletion; status()==child status; read sampling does not disturb",
+        bounds="%d internal entries (1-byte symbolic user keys, symbolic 56-bit seq, symbolic type), symbolic snapshot S, %s" % (n, fam_text(fam)))
 for (n, tier) in ((2, "quick"), (3, "quick"), (4, "quick"), (5, "thorough")):
     add("e.dbiter-scan-N%d" % n, "C07/dbiter.c", real=DBITER_REAL, include_real=["db_iter.c"],
         defs={"VP_MODE": 1, "VP_N": n}, kit=KIT_SLAB, unwind=11, unwindset=dbiter_loops(n),
@@ -163,103 +203,154 @@ for (n, tier) in ((2, "quick"), (3, "quick"), (4, "quick"), (5, "thorough")):
         bounds="%d internal entries (1-byte symbolic user keys, symbolic seq/type), symbolic snapshot S" % n)
 
 # ------------------------------------------------------------------ c. merger.c
-MERGER_REAL = ["table/iterator.c", "util/comparator.c", "util/buffer.c", "util/slice.c", "util/strutil.c"]
 MERGER_FUNCS = ["ldb_mergeiter_first", "ldb_mergeiter_last", "ldb_mergeiter_seek", "ldb_mergeiter_next",
                 "ldb_mergeiter_prev", "ldb_mergeiter_find_smallest", "ldb_mergeiter_find_largest",
                 "ldb_mergeiter_key", "ldb_mergeiter_value", "ldb_mergeiter_status", "ldb_mergeiter_create",
                 "ldb_wrapiter_update"]
-for (sizes, k, tier) in (((2, 2), 3, "quick"), ((1, 2), 3, "quick"), ((0, 2), 3, "quick"), ((2, 1), 4, "quick"),
-                         ((1, 1, 1), 3, "quick"), ((3, 2), 3, "quick"),
-                         ((2, 2), 4, "thorough"), ((3, 3), 3, "thorough"), ((2, 2, 2), 3, "thorough"), ((3, 2), 4, "thorough")):
-    total = sum(sizes)
-    d = {"VP_MODE": 0, "VP_K": k, "VP_N0": sizes[0], "VP_N1": sizes[1]}
+
+
+def interleavings(sizes):
+    """all distinct orders of the multiset {child c repeated sizes[c] times}, as digit strings (1-based)"""
+    out = []
+
+    def rec(prefix, left):
+        if not any(left):
+            out.append(prefix)
+            return
+        for c in range(len(left)):
+            if left[c]:
+                l2 = list(left)
+                l2[c] -= 1
+                rec(prefix + str(c + 1), l2)
+    rec("", list(sizes))
+    return out
+
+
+def merger_defs(sizes, mode):
+    d = {"VP_MODE": mode, "VP_N0": sizes[0], "VP_N1": sizes[1], "VP_ALLOC_WRAPITERS": len(sizes)}
     if len(sizes) > 2:
         d["VP_N2"] = sizes[2]
-    d["VP_ALLOC_WRAPITERS"] = len(sizes)
-    add("c.merger-ops-%s-K%d" % ("x".join(str(x) for x in sizes), k), "C07/merger.c", real=MERGER_REAL, kit=KIT_SLAB,
-        include_real=["table/merger.c"], defs=d, unwind=total + 3, tier=tier, functions=MERGER_FUNCS,
-        desc="merger.c over %d sorted children: after each of K symbolic ops (first/last/seek(sym)/next/prev, all direction changes) valid/key/value == sorted-map cursor over the union (keys distinct across children); status()==first non-OK child status" % len(sizes),
-        bounds="children with %s entries, 1-byte symbolic keys, symbolic child statuses, K=%d symbolic ops" % ("/".join(str(x) for x in sizes), k))
-for (sizes, tier) in (((2, 2), "quick"), ((3, 2), "quick"), ((2, 2, 2), "thorough"), ((3, 3), "thorough")):
-    total = sum(sizes)
-    d = {"VP_MODE": 1, "VP_N0": sizes[0], "VP_N1": sizes[1]}
-    if len(sizes) > 2:
-        d["VP_N2"] = sizes[2]
-    d["VP_ALLOC_WRAPITERS"] = len(sizes)
-    add("c.merger-scan-dups-%s" % "x".join(str(x) for x in sizes), "C07/merger.c", real=MERGER_REAL, kit=KIT_SLAB,
-        include_real=["table/merger.c"], defs=d, unwind=total + 3, tier=tier, functions=MERGER_FUNCS,
+    return d
+
+
+def add_merger(sizes, perm, fam, tier):
+    d = merger_defs(sizes, 0)
+    d.update(fam_defs(fam))
+    sz = "x".join(str(x) for x in sizes)
+    if perm:
+        d["VP_PERM"] = perm
+        name = "c.merger-ops-%s-P%s-%s" % (sz, perm, fam.replace("*", "x"))
+        keys = "concrete interleaving %s of the children (digit = owner of the next larger key), symbolic seek targets below/on/between/above every key" % perm
+    else:
+        name = "c.merger-ops-%s-symkeys-%s" % (sz, fam.replace("*", "x"))
+        keys = "1-byte symbolic keys (distinct across children)"
+    add(name, "C07/merger.c", real=UTIL_REAL, kit=KIT_SLAB, include_real=["table/merger.c"], defs=d,
+        unwind=sum(sizes) + 3, tier=tier, flags=NOSTD, functions=MERGER_FUNCS,
+        desc="merger.c over %d sorted children: after every step (all direction changes) valid/key/value == sorted-map cursor over the union (keys distinct across children); status()==first non-OK child status in child order" % len(sizes),
+        bounds="children with %s entries, %s, symbolic child statuses, %s" % ("/".join(str(x) for x in sizes), keys, fam_text(fam)))
+
+
+for perm in interleavings((2, 2)):
+    add_merger((2, 2), perm, "ARR", "quick")
+for perm in ("1212", "1221", "2112"):
+    add_merger((2, 2), perm, "ARA", "quick")
+add_merger((1, 1, 1), "213", "ARR", "quick")
+add_merger((1, 2), None, "ARR", "quick")
+add_merger((0, 2), "22", "ARR", "quick")
+for perm in interleavings((3, 2)):
+    add_merger((3, 2), perm, "ARR", "thorough")
+for perm in interleavings((2, 2)):
+    add_merger((2, 2), perm, "ARRR", "thorough")
+    add_merger((2, 2), perm, "***", "thorough")
+for perm in interleavings((1, 1, 1)) + ["112233", "123123", "321321", "132132"]:
+    add_merger((1, 1, 1) if len(perm) == 3 else (2, 2, 2), perm, "ARR", "thorough")
+add_merger((2, 2), None, "ARR", "thorough")
+for (sizes, tier) in (((2, 2), "quick"), ((3, 2), "thorough"), ((2, 2, 2), "thorough")):
+    add("c.merger-scan-dups-%s" % "x".join(str(x) for x in sizes), "C07/merger.c", real=UTIL_REAL, kit=KIT_SLAB,
+        include_real=["table/merger.c"], defs=merger_defs(sizes, 1), unwind=sum(sizes) + 3, tier=tier,
+        functions=MERGER_FUNCS,
         desc="merger.c with keys possibly repeated across children (LevelDB semantics): full forward and full backward scans yield every entry of every child exactly once, in (reverse) comparator order, ties in (reverse) child order",
         bounds="children with %s entries, 1-byte symbolic keys" % "/".join(str(x) for x in sizes))
 
 # ------------------------------------------------------------------ d. two_level_iterator.c
-TWO_REAL = ["table/iterator.c", "util/comparator.c", "util/buffer.c", "util/slice.c", "util/strutil.c"]
 TWO_FUNCS = ["ldb_twoiter_first", "ldb_twoiter_last", "ldb_twoiter_seek", "ldb_twoiter_next", "ldb_twoiter_prev",
              "ldb_twoiter_skip_forward", "ldb_twoiter_skip_backward", "ldb_twoiter_init_data_block",
              "ldb_twoiter_set_data_iter", "ldb_twoiter_status", "ldb_twoiter_key", "ldb_twoiter_value", "ldb_twoiter_create"]
+# table/iterator.c's ldb_iter_destroy (cleanup list walk + two free()s per data
+# iterator) is below the unit: modelled by vp_arr_iter_destroy (clear() only)
+TWO_REPLACE = ["ldb_iter_destroy:vp_arr_iter_destroy"]
 
 
-def two_defs(sizes, mode, k=None):
-    d = {"VP_MODE": mode}
+def two_defs(sizes, mode):
+    d = {"VP_MODE": mode, "VP_ARR_MAXN": 4}
     for i, x in enumerate(sizes):
         d["VP_S%d" % i] = x
-    if k is not None:
-        d["VP_K"] = k
     return d
 
 
 def two_loops(sizes):
     nb = len(sizes)
-    # skip loops open at most every block once; the handle buffer is 1 byte
+    m = max(list(sizes) + [nb]) + 1
+    # a skip loop opens every block at most once; the handle buffer is 1 byte
     return {"ldb_twoiter_skip_forward.0": nb + 2, "ldb_twoiter_skip_backward.0": nb + 2,
-            "memcpy.0": 2, "memcmp.0": 2}
+            "memcpy.0": 2, "memcmp.0": 2, "vp_arr_key.0": m, "vp_arr_value.0": m}
 
 
-for (sizes, k, tier) in (((1, 0, 1), 3, "quick"), ((0, 1, 0), 3, "quick"), ((1, 0), 3, "quick"), ((0, 0, 1), 2, "quick"),
-                         ((1, 1), 3, "quick"), ((0, 0), 2, "quick"),
-                         ((2, 0, 1), 3, "thorough"), ((1, 0, 0, 1), 3, "thorough"), ((1, 0, 1), 4, "thorough"),
-                         ((0, 2, 0), 3, "thorough"), ((2, 2), 3, "thorough")):
-    add("d.twolevel-ops-%s-K%d" % ("x".join(str(x) for x in sizes), k), "C07/twolevel.c", real=TWO_REAL, kit=KIT_SLAB,
-        include_real=["table/two_level_iterator.c"], defs=two_defs(sizes, 0, k), unwind=sum(sizes) + len(sizes) + 3,
-        unwindset=two_loops(sizes), tier=tier, functions=TWO_FUNCS, fp_rules={"block_function": "vp_blockfn"},
-        desc="two_level_iterator.c over an index child and per-block children (some EMPTY, status symbolic = some FAILING): after each of K symbolic ops valid/key/value == sorted-map cursor over the union (empty blocks skipped both ways, nothing lost/repeated); exactly the held data iterator alive; status() == index status, else held block status, else first non-OK status of released blocks; a block error is never forgotten",
-        bounds="blocks with %s entries, 1-byte symbolic keys/separators, symbolic statuses, K=%d symbolic ops" % ("/".join(str(x) for x in sizes), k))
-for (sizes, tier) in (((1, 0, 1), "quick"), ((0, 1, 0, 1), "quick"), ((2, 0, 0, 1), "thorough"), ((2, 2, 2), "thorough")):
-    add("d.twolevel-scan-%s" % "x".join(str(x) for x in sizes), "C07/twolevel.c", real=TWO_REAL, kit=KIT_SLAB,
-        include_real=["table/two_level_iterator.c"], defs=two_defs(sizes, 1), unwind=sum(sizes) + len(sizes) + 3,
-        unwindset=two_loops(sizes), tier=tier, functions=TWO_FUNCS, fp_rules={"block_function": "vp_blockfn"},
-        desc="two_level_iterator.c full forward and full backward scans over blocks (some empty, some failing) yield the union of all blocks, each entry once, in order / reverse order, with the status rule holding at every step",
-        bounds="blocks with %s entries, 1-byte symbolic keys/separators, symbolic statuses" % "/".join(str(x) for x in sizes))
+for (sizes, fam, tier) in (((1, 0), "ARR", "quick"), ((0, 1), "ARR", "quick"), ((1, 1), "ARR", "quick"),
+                           ((1, 0, 1), "AR", "quick"), ((1, 0, 1), "AA", "quick"), ((0, 1, 0), "AR", "quick"),
+                           ((0, 0), "AA", "quick"), ((0, 0, 1), "AR", "quick"),
+                           ((1, 0, 1), "ARR", "thorough"), ((0, 1, 0), "ARR", "thorough"), ((2, 0, 1), "ARR", "thorough"),
+                           ((1, 0, 0, 1), "AR", "thorough"), ((1, 0, 1), "ARA", "thorough"), ((2, 2), "ARR", "thorough"),
+                           ((1, 0), "***", "thorough")):
+    d = two_defs(sizes, 0)
+    d.update(fam_defs(fam))
+    add("d.twolevel-ops-%s-%s" % ("x".join(str(x) for x in sizes), fam.replace("*", "x")), "C07/twolevel.c",
+        real=UTIL_REAL, kit=KIT_SLAB, include_real=["table/two_level_iterator.c"], defs=d,
+        unwind=sum(sizes) + len(sizes) + 3, unwindset=two_loops(sizes), tier=tier, flags=NOSTD,
+        replace_calls=TWO_REPLACE, functions=TWO_FUNCS, fp_rules={"block_function": "vp_blockfn"},
+        desc="two_level_iterator.c over an index child and per-block children (some EMPTY, status symbolic = some FAILING): after every step valid/key/value == sorted-map cursor over the union (empty blocks skipped both ways, nothing lost/repeated); exactly the held data iterator alive; status() == index status, else held block status, else first non-OK status of released blocks; a block error is never forgotten",
+        bounds="blocks with %s entries (concrete keys: the unit never compares keys), symbolic seek targets below/on/between/above every key and separator, symbolic index and block statuses, %s" % ("/".join(str(x) for x in sizes), fam_text(fam)))
+for (sizes, symkeys, tier) in (((1, 0, 1), 0, "quick"), ((0, 1, 0, 1), 0, "quick"), ((1, 0, 1), 1, "quick"),
+                               ((2, 0, 0, 1), 0, "thorough"), ((2, 2, 2), 1, "thorough")):
+    d = two_defs(sizes, 1)
+    d["VP_SYMKEYS"] = symkeys
+    add("d.twolevel-scan-%s%s" % ("x".join(str(x) for x in sizes), "-symkeys" if symkeys else ""), "C07/twolevel.c",
+        real=UTIL_REAL, kit=KIT_SLAB, include_real=["table/two_level_iterator.c"], defs=d,
+        unwind=sum(sizes) + len(sizes) + 3, unwindset=two_loops(sizes), tier=tier,
+        functions=TWO_FUNCS, fp_rules={"block_function": "vp_blockfn"},
+        desc="two_level_iterator.c full forward and full backward scans over blocks (some empty, some failing) yield the union of all blocks, each entry once, in order / reverse order, with the status rule holding at every step (real ldb_iter_destroy, CBMC pointer checks on)",
+        bounds="blocks with %s entries, %s keys/separators, symbolic statuses" % ("/".join(str(x) for x in sizes), "1-byte symbolic" if symkeys else "concrete"))
 
 # ------------------------------------------------------------------ a. block.c on builder-produced blocks
-BLOCK_REAL = ["table/block_builder.c", "table/iterator.c", "util/comparator.c", "util/buffer.c", "util/slice.c",
-              "util/strutil.c", "util/array.c"]
-BLOCK_KIT = ["vp_nondet.c", "vp_mem.c", "vp_alloc_c07.c", "vp_arriter.c"]  # vp_arriter only for vp_arr_noop_cleanup
+BLOCK_REAL = ["table/block_builder.c"] + UTIL_REAL + ["util/array.c"]
 BLOCK_FUNCS = ["ldb_blockiter_first", "ldb_blockiter_last", "ldb_blockiter_seek", "ldb_blockiter_next",
                "ldb_blockiter_prev", "parse_next_key", "decode_entry", "seek_to_restart_point", "get_restart_point",
                "ldb_block_init", "ldb_blockiter_create", "ldb_blockgen_add", "ldb_blockgen_finish"]
 
 
-def block_defs(lens, ri, mode, k=None):
+def block_defs(lens, ri, mode):
     d = {"VP_MODE": mode, "VP_N": len(lens), "VP_RI": ri, "VP_VL": 1, "VP_SLAB": 64}
     for i, x in enumerate(lens):
         d["VP_L%d" % i] = x
-    if k is not None:
-        d["VP_K"] = k
     return d
 
 
-for (lens, ri, k, tier) in (((2, 2), 1, 2, "quick"), ((2, 2), 2, 2, "quick"), ((1, 2, 3), 2, 2, "quick"),
-                            ((2, 2, 2), 1, 2, "quick"), ((2, 2, 2), 3, 2, "quick"), ((2,), 1, 2, "quick"),
-                            ((2, 2, 2), 2, 2, "thorough"), ((3, 3, 3), 1, 2, "thorough"), ((3, 3, 3), 2, 2, "thorough"),
-                            ((3, 3, 3), 3, 2, "thorough"), ((3, 2, 1), 2, 2, "thorough"), ((2, 2, 2), 2, 3, "thorough")):
-    add("a.block-ops-L%s-R%d-K%d" % ("".join(str(x) for x in lens), ri, k), "C07/blockiter.c", real=BLOCK_REAL, kit=BLOCK_KIT,
-        include_real=["table/block.c"], defs=block_defs(lens, ri, 0, k), unwind=8, tier=tier, functions=BLOCK_FUNCS,
-        desc="block.c iterator on a block produced by the real block_builder.c: after each of K symbolic ops (first/last/seek(sym)/next/prev) valid/key/value == sorted-map cursor over the added entries, status OK",
-        bounds="%d entries, key lengths %s (symbolic bytes, strictly increasing), 1-byte symbolic values, restart interval %d, symbolic target of 0..3 bytes, K=%d" % (len(lens), "/".join(str(x) for x in lens), ri, k))
+for (lens, ri, fam, tier) in (((2, 2), 1, "**", "quick"), ((2, 2), 2, "**", "quick"), ((1, 2, 3), 2, "AR", "quick"),
+                              ((2, 2, 2), 1, "AR", "quick"), ((2, 2, 2), 3, "AR", "quick"), ((2, 2, 2), 2, "AA", "quick"),
+                              ((2,), 1, "**", "quick"),
+                              ((2, 2, 2), 2, "**", "thorough"), ((3, 3, 3), 1, "**", "thorough"), ((3, 3, 3), 2, "**", "thorough"),
+                              ((3, 3, 3), 3, "**", "thorough"), ((3, 2, 1), 2, "**", "thorough"), ((2, 2, 2), 2, "ARR", "thorough")):
+    d = block_defs(lens, ri, 0)
+    d.update(fam_defs(fam))
+    add("a.block-ops-L%s-R%d-%s" % ("".join(str(x) for x in lens), ri, fam.replace("*", "x")), "C07/blockiter.c",
+        real=BLOCK_REAL, kit=KIT_SLAB, include_real=["table/block.c"], defs=d, unwind=8, tier=tier, flags=NOSTD,
+        functions=BLOCK_FUNCS,
+        desc="block.c iterator on a block produced by the real block_builder.c: after every step valid/key/value == sorted-map cursor over the added entries, status OK",
+        bounds="%d entries, key lengths %s (symbolic bytes, strictly increasing), 1-byte symbolic values, restart interval %d, symbolic target of 0..3 bytes, %s" % (len(lens), "/".join(str(x) for x in lens), ri, fam_text(fam)))
 for (lens, ri, tier) in (((2, 2, 2), 2, "quick"), ((1, 2, 3), 1, "quick"), ((3, 3, 3), 3, "thorough"), ((3, 3, 3), 2, "thorough")):
-    add("a.block-scan-L%s-R%d" % ("".join(str(x) for x in lens), ri), "C07/blockiter.c", real=BLOCK_REAL, kit=BLOCK_KIT,
+    add("a.block-scan-L%s-R%d" % ("".join(str(x) for x in lens), ri), "C07/blockiter.c", real=BLOCK_REAL, kit=KIT_SLAB,
         include_real=["table/block.c"], defs=block_defs(lens, ri, 1), unwind=8, tier=tier, functions=BLOCK_FUNCS,
-        desc="block.c iterator on a builder-produced block: full forward and full backward scans yield exactly the added entries, each once, in order / reverse order",
+        desc="block.c iterator on a builder-produced block: full forward and full backward scans yield exactly the added entries, each once, in order / reverse order (CBMC pointer checks on)",
         bounds="%d entries, key lengths %s, restart interval %d" % (len(lens), "/".join(str(x) for x in lens), ri))
 
 META = {}
